@@ -57,7 +57,7 @@ class Q:
                  instr=(), cbmc=(), tier="quick", required=True, timeout=None, entry="harness",
                  scaled=(), expect_fail=None, solver=None, native=False, note="",
                  repo_defs=None, leak=False, nowitness=False, pre=None, checks=True,
-                 lib_unwind_violation=False):
+                 lib_unwind_violation=False, unwind_fn=None):
         self.name = name
         self.harness = harness
         self.srcs = list(srcs)
@@ -80,6 +80,7 @@ class Q:
         self.leak = leak
         self.nowitness = nowitness
         self.lib_unwind_violation = lib_unwind_violation
+        self.unwind_fn = dict(unwind_fn or {})   # {function-name regex: bound} -> expanded to --unwindset per loop
         self.checks = checks            # False: functional query, CBMC's memory-safety/overflow instrumentation off
         self.pre = pre                  # callable(wd, repo): generate headers into wd before compiling
 
@@ -174,9 +175,23 @@ def build(q, wd, witness):
     return cur, None
 
 
+def loops_of(gb):
+    rc, out, err, _ = run(["goto-instrument", "--show-loops", gb], timeout=120)
+    return re.findall(r"^Loop ([^\s:]+):", out, re.M)
+
+
 def cbmc_cmd(q, gb, witness, solver):
     cmd = ["cbmc", gb, "--function", q.entry, "--unwind", str(q.unwind)]
-    cmd += ["--unwindset", ",".join(MODEL_UNWIND + q.unwindset)]
+    extra = []
+    if q.unwind_fn:
+        explicit = set(u.split(":")[0] for u in q.unwindset)
+        for lp in loops_of(gb):
+            fn = lp.rsplit(".", 1)[0]
+            for pat, bound in q.unwind_fn.items():
+                if lp not in explicit and re.fullmatch(pat, fn):
+                    extra.append("%s:%d" % (lp, bound))
+                    break
+    cmd += ["--unwindset", ",".join(MODEL_UNWIND + q.unwindset + extra)]
     cmd += CBMC_BASE + q.cbmc
     if not q.checks:
         cmd = [c for c in cmd if c not in ("--pointer-overflow-check", "--signed-overflow-check",
